@@ -57,7 +57,12 @@ def _time_time(it, a, k, n):
     return VFloat(z3.Real(it.ctx.fresh_name("time")))
 
 
+def _noop(it, a, k, n):
+    return NONE
+
+
 _TABLE = {
+    ("time", "sleep"): lambda it: _b("time.sleep", _noop),
     ("re", "compile"): lambda it: _b("re.compile", _re_compile),
     ("re", "ASCII"): lambda it: _re_flag(256),
     ("re", "A"): lambda it: _re_flag(256),
